@@ -226,3 +226,231 @@ def chunk_done_unit(prop):
              ], name='For#1', types={'file_data': Ref(FILEDATA)})},
              prop=prop)
     return u
+
+
+# ------------------------------------------------------------------ _stream_files
+PATHOBJ = models.opaque_type('PathObj')
+FILEOBJ = models.opaque_type('FileObj')
+
+
+def path_str(z):
+    return UF('path_str', PATHOBJ, STR)(z)
+
+
+def alignment_value():
+    from vf import source
+    node = source.class_attr(shared.ADAPTERS_PY, 'gclmulchunker', 'alignment')
+    return node.value
+
+
+def stream_setup(b):
+    me = shared.repo_self(b, props=False, cache=False)
+    state = b.ref('state', STATE)
+    files = b.ref('files', sym.ListC(PATHOBJ))
+    LC = sym.ListC(PATHOBJ)
+    h = b.st.heap
+    b.files_n = h.read(LC, 'len', files.z)
+    b.files_arr = h.read(LC, 'arr', files.z)
+    b.assume(b.files_n >= 0)
+    i, j = z3.Ints('pi pj')
+    # requires (C01.flatten.distinct): the flattened file list has pairwise distinct paths
+    b.assume(z3.ForAll([i, j], z3.Implies(z3.And(0 <= i, i < j, j < b.files_n),
+                                          path_str(z3.Select(b.files_arr, i)) != path_str(z3.Select(b.files_arr, j)))))
+    # initial state = _SnapshotState()
+    F = Files(b.st, state.z)
+    b.assume(F.n == 0)
+    b.assume(h.read(STATE, 'bytes_with_padding', state.z) == 0)
+    b.assume(Opt(Ref(SNAPFILE)).is_none(h.read(STATE, 'current_file', state.z)))
+    lst = h.read(STATE, 'files', state.z)
+    b.assume(z3.And(lst >= 0, lst < b.st.alloc_base))
+    b.state = state
+    b.align = alignment_value()
+    b.ghost('ystream', SV(BYTES, z3.StringVal('')))
+    b.ghost('consumed', SV(BYTES, z3.StringVal('')))
+    b.ghost('fed', SV(BYTES, z3.StringVal('')))
+    chunker = models.opaque_type('ChunkerWithAlignment', attrs={'alignment': b.align})
+    hasher_obj = Obj('hasher')
+
+    def feed(interp, st, args, kwargs):
+        st.ghost['fed'] = SV(BYTES, z3.Concat(st.ghost['fed'].z, sym.lift(args[0], BYTES).z))
+        yield st, None
+
+    def digest(interp, st, args, kwargs):
+        yield st, SV(BYTES, H()(st.ghost['fed'].z))
+
+    hasher_obj._attrs = {'feed': Model('feed', feed), 'digest': Model('digest', digest)}
+
+    def incremental_hasher(interp, st, args, kwargs):
+        st.ghost['fed'] = SV(BYTES, z3.StringVal(''))
+        yield st, hasher_obj
+
+    me._attrs['props'] = Obj('props', chunker=SV(chunker, z3.Const('chunker', chunker.sort())),
+                             incremental_hasher=Model('incremental_hasher', incremental_hasher))
+
+    def read(interp, st, args, kwargs):
+        _, size = args
+        eof = st.copy()
+        eof.emit('read_eof')
+        yield eof, b''
+        c = sym.fresh(BYTES, 'piece')
+        st.assume(z3.And(z3.Length(c.z) >= 1, z3.Length(c.z) <= sym.lift(size, INT).z))
+        st.ghost['consumed'] = SV(BYTES, z3.Concat(st.ghost['consumed'].z, c.z))
+        st.emit('read', data=c)
+        yield st, c
+
+    FILEOBJ.attrs = {'read': MethodModel('read', read),
+                     'fileno': MethodModel('fileno', lambda i, s, a, k: iter([(s, sym.fresh(INT, 'fd'))]))}
+
+    def open_(interp, st, args, kwargs):
+        st.ghost['consumed'] = SV(BYTES, z3.StringVal(''))
+        f = sym.fresh(FILEOBJ, 'fobj')
+        st.emit('open', path=args[0])
+        yield st, CM('file', value=f)
+
+    PATHOBJ.attrs = {'open': MethodModel('open', open_)}
+
+    def str_(interp, st, args, kwargs):
+        (v,) = args
+        if isinstance(v, SV) and v.ty == PATHOBJ:
+            yield st, SV(STR, path_str(v.z))
+        else:
+            yield from models.BUILTINS['str'].fn(interp, st, args, kwargs)
+
+    b.bind('str', Model('str', str_))
+    b.bind('_SnapshotFile', models.ctor_model(SNAPFILE, {'metadata': None, 'digest': None}))
+
+    def read_metadata(interp, st, args, kwargs):
+        st.emit('read_metadata')
+        yield st, sym.fresh(META, 'meta')
+
+    me._attrs['read_metadata'] = Model('read_metadata', read_metadata)
+    b.sym('chunk_size', INT)
+    b.assume(b.st.lookup('chunk_size').z >= 1)
+
+
+def _bwp(st, state):
+    return st.heap.read(STATE, 'bytes_with_padding', state.z)
+
+
+def fcontent(i):
+    """ghost: the bytes of the i-th file as read during this snapshot"""
+    return UF('fcontent', INT, BYTES)(i)
+
+
+def stream_outer_inv(b):
+    def inv(ctx):
+        st = ctx.st
+        F = Files(st, b.state.z)
+        k = ctx.k
+        bwp = _bwp(st, b.state)
+        cur = st.heap.read(STATE, 'current_file', b.state.z)
+        OR = Opt(Ref(SNAPFILE))
+        i = z3.Int('oi')
+        a = b.align
+        lst = st.heap.read(STATE, 'files', b.state.z)
+        return z3.And(
+            k <= b.files_n,
+            F.n == k, I_files(F),
+            lst == b.st.heap.read(STATE, 'files', b.state.z),
+            z3.ForAll([i], z3.Implies(z3.And(0 <= i, i < k), z3.And(
+                F.start(i) % a == 0, F.end(i) <= bwp,
+                F.ref(i) >= 0, F.ref(i) < ctx.frontier(),
+                F.path(i) == path_str(z3.Select(b.files_arr, i)),
+                st.heap.read(SNAPFILE, 'digest', F.ref(i)) == Opt(BYTES).some(H()(fcontent(i))),
+                F.end(i) - F.start(i) == z3.Length(fcontent(i))))),
+            z3.Length(ctx.g('ystream')) == bwp,
+            z3.Implies(k == 0, z3.And(OR.is_none(cur), bwp == 0)),
+            z3.Implies(k > 0, z3.And(z3.Not(OR.is_none(cur)), OR.val(cur) == F.ref(k - 1), bwp == F.end(k - 1))),
+        )
+    return inv
+
+
+def stream_inner_inv(b):
+    def inv(ctx):
+        st = ctx.st
+        F = Files(st, b.state.z)
+        bwp = _bwp(st, b.state)
+        f = ctx.v('file')
+        E = ctx.entry       # state when the while loop was entered (file just appended)
+        F_E = Files(E, b.state.z)
+        y0 = E.ghost['ystream'].z
+        fs = st.heap.read(SNAPFILE, 'stream_start', f)
+        fe = st.heap.read(SNAPFILE, 'stream_end', f)
+        cons = ctx.g('consumed')
+        return z3.And(
+            F.n == F_E.n, F.arr == F_E.arr,
+            fs == E.heap.read(SNAPFILE, 'stream_start', f),
+            fe == fs + z3.Length(cons),
+            bwp == fe,
+            ctx.g('ystream') == z3.Concat(y0, cons),
+            ctx.g('fed') == cons,
+        )
+    return inv
+
+
+def stream_post(prop):
+    def post(res):
+        b = res.builder
+        a = b.align
+        n_files = 0
+        for p in res.body_paths('For#1'):
+            st = p.st
+            if p.kind not in ('normal', 'continue'):
+                res.oblige(p, f'{prop}.stream.iteration_total[{p.kind}]', z3.BoolVal(False))
+                continue
+            n_files += 1
+            f = st.lookup('file').z
+            fs = st.heap.read(SNAPFILE, 'stream_start', f)
+            fe = st.heap.read(SNAPFILE, 'stream_end', f)
+            ys = st.ghost['ystream'].z
+            cons = st.ghost['consumed'].z
+            # C01.stream.padding_aligned / C11.padding.aligned: every file starts on an alignment boundary
+            res.oblige(p, f'{prop}.stream.file_start_aligned', fs % a == 0)
+            # the file's bytes are exactly the stream range [start, end)
+            res.oblige(p, f'{prop}.stream.range_is_file_content', z3.And(
+                fe - fs == z3.Length(cons), z3.SubString(ys, fs, fe - fs) == cons, z3.Length(ys) == fe))
+            # padding consists of zero bytes only and belongs to no file
+            for e in p.events('yield'):
+                pass
+            # the digest recorded for the file is the hash of exactly those bytes
+            res.oblige(p, f'{prop}.stream.digest_is_hash_of_content',
+                       st.heap.read(SNAPFILE, 'digest', f) == Opt(BYTES).some(H()(cons)))
+            res.oblige(p, f'{prop}.stream.metadata_recorded', z3.Not(Opt(META).is_none(st.heap.read(SNAPFILE, 'metadata', f))))
+            res.oblige(p, f'{prop}.stream.metadata_read_after_content', z3.BoolVal(
+                [e.kind for e in p.st.events if e.kind in ('read_eof', 'read_metadata')][-2:] == ['read_eof', 'read_metadata']))
+        res.oblige([], f'{prop}.stream.file_iterations_checked', z3.BoolVal(n_files >= 1))
+        for p in res.paths:
+            if p.kind not in ('normal', 'return'):
+                res.oblige(p, f'{prop}.stream.total[{p.kind}]', z3.BoolVal(False))
+    return post
+
+
+def stream_on_yield(interp, st, v):
+    st.ghost['ystream'] = SV(BYTES, z3.Concat(st.ghost['ystream'].z, sym.lift(v, BYTES).z))
+
+
+def stream_unit(prop):
+    def setup(b):
+        stream_setup(b)
+        u.loops['For#1'].inv = stream_outer_inv(b)
+        u.loops['While#1'].inv = stream_inner_inv(b)
+        # ghost definition: fcontent(k) is what was read from the k-th file in this run
+        u.loops['For#1'].at_end = lambda ctx: [fcontent(ctx.k) == ctx.g('consumed')]
+
+    LF = sym.ListC(FILES_ELEM)
+    u = Unit(f'{prop}.stream_files', REPO_PY, 'Repository.snapshot._stream_files', setup, stream_post(prop),
+             loops={
+                 'For#1': LoopSpec(None, modifies=[
+                     ('heap', STATE, 'bytes_with_padding'), ('heap', STATE, 'current_file'),
+                     ('heap', LF, 'arr'), ('heap', LF, 'len'),
+                     ('heap', SNAPFILE, 'path'), ('heap', SNAPFILE, 'stream_start'), ('heap', SNAPFILE, 'stream_end'),
+                     ('heap', SNAPFILE, 'metadata'), ('heap', SNAPFILE, 'digest'),
+                     ('ghost', 'ystream'), ('ghost', 'consumed'), ('ghost', 'fed')], name='For#1',
+                     types={'prev_file': Opt(Ref(SNAPFILE)), 'alignment': INT, 'padding_length': INT}),
+                 'While#1': LoopSpec(None, modifies=[
+                     ('heap_at', STATE, 'bytes_with_padding', ['state']),
+                     ('heap_at', SNAPFILE, 'stream_end', ['file']),
+                     ('ghost', 'ystream'), ('ghost', 'consumed'), ('ghost', 'fed')], name='While#1',
+                     types={'chunk': BYTES}),
+             }, on_yield=stream_on_yield, prop=prop)
+    return u
